@@ -96,6 +96,35 @@ fn run_tuple(shape: &Shape, t: &[usize], with_faults: bool) -> Res {
     let windows = d.log.iter().filter(|o| matches!(o, DestOp::Write { data, .. } if data.len() == 12)).count() as u64;
     let mut fault_runs = 0;
     if with_faults {
+        // a retry on the SAME writer after a request that was aborted half-way (an unreadable application region
+        // behind 64 readable ones), the caller having put its original regions back: every crash point of the retry
+        {
+            b.p.quiesce();
+            let mut o1 = o.clone();
+            let good = (env.main_stack.1 - 0x2000) as usize;
+            o1.app_memory = (0..64).map(|_| (good, 4096usize)).chain([(0x10usize, 64usize)]).collect();
+            let mut w = crate::dump::make_writer(b.p.pid, &o1);
+            let mut sink = std::io::Cursor::new(Vec::new());
+            let r0 = crate::dump::dump_with(&mut w, &mut sink);
+            if !matches!(r0, DumpResult::Ok(_)) {
+                w.set_app_memory(o.app_memory.iter().map(|(p, l)| minidump_writer::app_memory::AppMemory { ptr: *p, length: *l }).collect());
+                crate::checks::universal::note_writer(b.p.pid, &o);
+                b.p.quiesce();
+                let mut d4 = crate::dest::RecDest::new(pre.clone(), start, Fault::None);
+                let r4 = crate::dump::dump_with(&mut w, &mut d4);
+                fault_runs += 1;
+                if let DumpResult::Panic(p) = &r4 {
+                    fails.push(("retry-after-abort/panic".into(), format!("the retry panicked: {p}")));
+                }
+                let mut f4 = Vec::new();
+                crash_points += check_log(&pre, start, &d4.log, &mut f4, "retry on the same writer after an aborted request, crash point");
+                for (k, msg) in f4 {
+                    if !fails.iter().any(|f| f.0 == format!("retry-after-abort/{k}")) {
+                        fails.push((format!("retry-after-abort/{k}"), msg));
+                    }
+                }
+            }
+        }
         // a destination that accepts at most 4096 / 50000 bytes per write (header + directory and every
         // directory entry still go out in one piece): every crash point of the longer op log
         for m in [4096usize, 50000] {
